@@ -157,23 +157,6 @@ theorem wf_mergeNode (sn : SNode) (nu : NodeUpd) (h : SNode.WF sn) : SNode.WF (m
       refine ⟨IMap.nodup_set sn p' _ h.1, ?_⟩
       exact IMap.forall_set (fun _ y => SPart.WF y) sn p' _ h.2 (wf_ofPUpd u)
 
-theorem applyNodeF_nodup (nu : NodeUpd) (hn : IMap.Nodup nu) (p : Nat) (f : PF) (k : Nat) :
-    applyNodeF f p nu k = match IMap.get? nu p with | some u => applyPUpdF f u k | none => f k := by
-  induction nu generalizing f with
-  | nil => rfl
-  | cons hd t ih =>
-    obtain ⟨p', u⟩ := hd
-    unfold IMap.Nodup at hn ih
-    rw [List.pairwise_cons] at hn
-    simp only [applyNodeF, IMap.get?_cons]
-    rw [ih hn.2]
-    by_cases hp : p' = p
-    · subst hp
-      simp only [if_true]
-      rw [IMap.get?_eq_none_of_notin t p' (fun x hx e => hn.1 x hx e.symm)]
-    · have : ¬ p = p' := fun e => hp e.symm
-      simp only [hp, this, if_false]
-
 theorem get?_ofNodeUpd_aux (nu : NodeUpd) (hn : IMap.Nodup nu) (m0 : SNode) (p : Nat) :
     IMap.get? (nu.foldl (fun m pu => IMap.set m pu.1 (SPart.ofPUpd pu.2)) m0) p
       = match IMap.get? nu p with | some u => some (SPart.ofPUpd u) | none => IMap.get? m0 p := by
@@ -283,24 +266,6 @@ theorem swf_part (s : Staging) (h : SWF s) (pk : PKey) (sp : SPart) (hs : staged
     exact (h.inner (pk.1, sn) (IMap.mem_of_get? s pk.1 sn hsn)).2 (pk.2, sp) (IMap.mem_of_get? sn pk.2 sp hs)
 
 /-! ### committing the staged updates to the root -/
-
-theorem applyF_nodup (us : DbUpdates) (hn : IMap.Nodup us) (pk : PKey) (f : PF) (k : Nat) :
-    applyF f pk us k
-      = match IMap.get? us pk.1 with | some nu => applyNodeF f pk.2 nu k | none => f k := by
-  induction us generalizing f with
-  | nil => rfl
-  | cons hd t ih =>
-    obtain ⟨n, nu⟩ := hd
-    unfold IMap.Nodup at hn ih
-    rw [List.pairwise_cons] at hn
-    simp only [applyF, IMap.get?_cons]
-    rw [ih hn.2]
-    by_cases hp : n = pk.1
-    · subst hp
-      simp only [if_true]
-      rw [IMap.get?_eq_none_of_notin t pk.1 (fun x hx e => hn.1 x hx e.symm)]
-    · have : ¬ pk.1 = n := fun e => hp e.symm
-      simp only [hp, this, if_false]
 
 theorem applyPUpdF_toPUpd (sp : SPart) (h : SPart.WF sp) (f : PF) (k : Nat) :
     applyPUpdF f sp.toPUpd k = absF (some sp) f k := by
